@@ -2,6 +2,7 @@
 from __future__ import annotations
 
 import itertools
+import warnings
 import math
 import operator
 from datetime import date, datetime, timedelta
@@ -176,13 +177,16 @@ def unit_arith(unit):
 
 def unit_compare(unit):
     from serif import Vector
-    _, kind, N = unit
+    _, kind, N = unit[:3]
     agg = Agg()
     ops = dict(CMP)
     if kind in ("bool",):
         ops.update(LOGIC)
+    kind2 = unit[3] if len(unit) > 3 else kind        # cross-kind comparisons: the right operand is of another kind
+    from datetime import datetime as _dt
+    XB = dict(BASE, datetime=([_dt(2020, 1, 1), _dt(2020, 1, 2, 3), _dt(2021, 5, 5), _dt(2020, 1, 1)], [_dt(2020, 1, 2), _dt(2020, 1, 2, 3), _dt(2020, 1, 1), _dt(2022, 2, 2)]))
     for n in range(1, N + 1):
-        ba, bb = BASE[kind][0][:n], BASE[kind][1][:n]
+        ba, bb = XB[kind][0][:n], XB[kind2][1][:n]
         for ma in masks(n):
             xs = with_none(ba, ma)
             for mb in masks(n):
@@ -200,7 +204,7 @@ def unit_compare(unit):
                         agg.evals += 1; agg.transitions += 1; agg.compared += 1
                         if (any(ma) or any(mb)) and not (all(ma) and all(mb)):
                             agg.nontrivial += 1
-                        case = {"op": opn, "left": xs, "right": ys, "form": form, "kind": kind}
+                        case = {"op": opn, "left": xs, "right": ys, "form": form, "kind": kind, "right_kind": kind2}
                         py = f"from serif import Vector\nfrom datetime import date\nimport operator\nprint(list(operator.{opn if opn not in LOGIC else opn + '_'}(Vector({xs!r}), {'Vector(' if form != 'vl' else ''}{ys!r}{')' if form != 'vl' else ''})))  # expected {want!r}"
                         try:
                             v = Vector(xs)
@@ -226,7 +230,7 @@ def unit_compare(unit):
                         else:
                             agg.outcomes["compare-agree"] += 1
             # scalar comparison
-            y = BASE[kind][1][0]
+            y = XB[kind2][1][0]
             for opn, op in ops.items():
                 try:
                     want = [False if x is None else bool(op(x, y)) for x in xs]
@@ -329,6 +333,38 @@ def unit_reduce(unit):
                     if not red_close(got, want):
                         counted = ref_reduce(fn, [0 if x is None else x for x in xs]) if kind in ("int", "float", "bool") and fn in ("sum", "mean") else None
                         agg.violation(V(f"reduce.{fn}", "none-not-skipped" if None in xs else "wrong-value", case, want, got, py))
+                    else:
+                        agg.outcomes["reduce-agree"] += 1
+    # ---- the same reductions asked of a TABLE run down every column: each column's answer is that column's own reduction
+    from serif import Table
+    for n in range(2, N + 1):
+        b0, b1 = BASE[kind][0][:n], BASE[kind][1][:n]
+        for m0 in masks(n):
+            for m1 in (masks(n) if n <= 3 else [tuple([False] * n), tuple([True] + [False] * (n - 1))]):
+                c0, c1 = with_none(b0, m0), with_none(b1, m1)
+                if all(m0) or all(m1):
+                    continue                      # a column of nothing but None has no kind of its own; the vector part covers it
+                agg.states += 1
+                try:
+                    with warnings.catch_warnings():
+                        warnings.simplefilter("ignore")
+                        t = Table([Vector(list(c0), name="a"), Vector(list(c1), name="b")])
+                except Exception:
+                    continue
+                for fn in fns:
+                    want = [ref_reduce(fn, [x for x in c if x is not None]) if not (fn == "stdev-population" and sum(x is not None for x in c) < 2) else "unspecified" for c in (c0, c1)]
+                    agg.evals += 1; agg.transitions += 1; agg.compared += 1
+                    if any(m0) or any(m1):
+                        agg.nontrivial += 1
+                    case = {"reduction": fn, "table_columns": [c0, c1], "kind": kind}
+                    try:
+                        r = t.stdev(population=True) if fn == "stdev-population" else getattr(t, fn)()
+                        got = list(r._underlying) if hasattr(r, "_underlying") else list(r)
+                    except Exception as e:
+                        agg.violation(V(f"reduce.table.{fn}", "raises-" + type(e).__name__ + ("-with-None" if (any(m0) or any(m1)) else ""), case, want, repr(e)[:80]))
+                        continue
+                    if len(got) != 2 or any(w != "unspecified" and not red_close(g, w) for g, w in zip(got, want)):
+                        agg.violation(V(f"reduce.table.{fn}", "none-not-skipped" if (any(m0) or any(m1)) else "wrong-value", case, want, got))
                     else:
                         agg.outcomes["reduce-agree"] += 1
     agg.sample({"reduce": kind, "N": N})
@@ -743,6 +779,8 @@ def check(ctx):
     N = ctx.pick(3, 5)
     units = [("arith", a, b, N) for a, b in PAIRS]
     units += [("cmp", k, N) for k in BASE]
+    units += [("cmp", a, N, b) for a, b in (("date", "datetime"), ("datetime", "date"), ("datetime", "datetime"), ("int", "float"), ("float", "int"), ("bool", "int"),
+                                            ("int", "str"), ("str", "int"), ("float", "complex"), ("complex", "int"))]
     units += [("red", k, N + 1) for k in BASE]
     units += [("na", k, N + 1) for k in list(BASE) + ["object"]]
     units += [("grp", "str", n) for n in range(1, 4)]
